@@ -234,6 +234,7 @@ func (vc *FuncVC) execFmtState(st *State, reach Term, ins *ssa.Call) bool {
 		return false
 	}
 	s := vc.scalar(common.Value)
+	vc.modelNote("fmt.State")
 	decl := func(name, sig string) {
 		if !vc.declared[name] {
 			vc.declared[name] = true
@@ -446,6 +447,7 @@ func (vc *FuncVC) execLibrary(st *State, reach Term, ins *ssa.Call, callee *ssa.
 	u64 := BigLit(pow2_64)
 	switch name {
 	case "strings.HasPrefix":
+		vc.modelNote("strings.HasPrefix")
 		// a deterministic (uninterpreted) function of the two string codes, nameable in contracts as uf_hasprefix(s, p) == 1
 		fname := "uf_hasprefix_2"
 		if !vc.declared[fname] {
@@ -463,6 +465,8 @@ func (vc *FuncVC) execLibrary(st *State, reach Term, ins *ssa.Call, callee *ssa.
 		return
 	case "strings.IndexByte":
 		// the first position holding the byte, or -1 when no position does
+		vc.modelNote("strings.IndexByte")
+		vc.modelNote("strings")
 		code, b := vc.scalar(args[0]), vc.scalar(args[1])
 		r := vc.fresh("stridx", SInt)
 		n := vc.strLen(code)
@@ -474,6 +478,8 @@ func (vc *FuncVC) execLibrary(st *State, reach Term, ins *ssa.Call, callee *ssa.
 	case "strings.ToLower":
 		// For a text of ASCII bytes only: same length, upper-case letters mapped to lower case, everything else kept.
 		// (Anything else - multi-byte runes, invalid UTF-8 - may change the length: nothing is said then.)
+		vc.modelNote("strings.ToLower")
+		vc.modelNote("strings")
 		code := vc.scalar(args[0])
 		r := vc.freshVal("lower", rt)
 		n := vc.strLen(code)
@@ -486,6 +492,8 @@ func (vc *FuncVC) execLibrary(st *State, reach Term, ins *ssa.Call, callee *ssa.
 		// base 10, a constant bit size: succeeds exactly on a numeral (optional sign, digits) whose value fits, and returns it
 		if sc, ok := args[2].(*ssa.Const); ok && sc.Value != nil && sc.Int64() >= 8 && sc.Int64() <= 64 {
 			vc.numeralTheory()
+			vc.modelNote("strconv.ParseInt")
+			vc.modelNote("numerals")
 			code, base := vc.scalar(args[0]), vc.scalar(args[1])
 			v := vc.fresh("parsed", SInt)
 			er := vc.fresh("parseerr", SInt)
@@ -547,6 +555,16 @@ func (vc *FuncVC) execLibrary(st *State, reach Term, ins *ssa.Call, callee *ssa.
 	}
 	vc.libHavoc(name)
 	vc.vals[ins] = vc.freshVal("lib_"+callee.Name(), rt)
+}
+
+// modelNote records that a natively modelled library function or language feature was used (listed as an assumption)
+func (vc *FuncVC) modelNote(name string) {
+	for _, n := range vc.notes {
+		if n == "model:"+name {
+			return
+		}
+	}
+	vc.notes = append(vc.notes, "model:"+name)
 }
 
 func (vc *FuncVC) libHavoc(name string) {
